@@ -1117,7 +1117,8 @@ class Unit:
                     eds.append((x["span"][0], x["span"][0], "{ proof { ghost_unlock(w); } } ", None))
             unit_tail = last["kind"] == "expr" and (
                 re.match(r"(while|for)\b", src.text(*last["span"]))
-                or any(l["k"] == "loop" and l.get("body_close") == blk["close"] for l in nodes))
+                or any(l["k"] == "loop" and l.get("body_close") == blk["close"] for l in nodes)
+                or any(l["k"] == "if" and not l.get("has_else") and l["span"][0] == last["span"][0] and l["span"][1] == last["span"][1] for l in nodes))
             if unit_tail:
                 # the tail is a unit-valued expression (a while/for loop, or the last expression of a
                 # loop body): the guard is dropped right after it; what happens inside with the guard
